@@ -30,7 +30,7 @@ type c12Case struct {
 	MutK int    `json:"mutK,omitempty"`
 	// Declared decoded length: nil = correct
 	Declared *string `json:"declared,omitempty"`
-	Prior    bool    `json:"prior,omitempty"` // the key already holds an object
+	Prior    bool    `json:"prior,omitempty"`    // the key already holds an object
 	HexUpper bool    `json:"hexUpper,omitempty"` // chunk sizes in upper-case hexadecimal digits
 }
 
